@@ -1,33 +1,43 @@
 """C30 — a smart server never waits for bytes beyond the current request
-(breezy/bzr/smart/protocol.py next_read_size of every decoder, medium.py
-SmartServerPipeStreamMedium._serve_one_request_unguarded, message.py
-ConventionalResponseHandler._read_more, client read_body_bytes / read_streamed_body).
+(breezy/bzr/smart/protocol.py next_read_size of every decoder, medium.py _get_line,
+SmartServerPipeStreamMedium._build_protocol / _serve_one_request_unguarded, SmartMedium.read_bytes,
+message.py ConventionalResponseHandler._read_more, client read_line / read_response_tuple /
+read_body_bytes / read_streamed_body).
 
-Lean side (Props/C30.lean, decoders shared with C29): for LengthPrefixedBodyDecoder,
-ChunkedBodyDecoder, ProtocolThreeDecoder (server and client side) and the protocol
-1/2 server request machine, proved for ALL messages, read patterns and short-read
-schedules: (a) encoder-independent bound `1 <= hint` and `hint + |unused afterwards|
-<= |q|` for every resting state and every continuation q that completes the message;
-(b) while a well-formed message arrives in arbitrary reads the hint is between 1 and
-the number of message bytes not yet delivered and the exit test is false; (c) the
-exit test (finished_reading / hint == 0) is true once the message is complete;
-(d) the reading loop never blocks, terminates and consumes exactly the message.
+Lean side (Props/C30.lean; decoders shared with C29; loops, `_get_line`, dispatch, guards, cap and
+the machine combinators in Model/C30.lean; five decoder laws -> generic theorems in Lemmas/C30*.lean).
+Proved for ALL messages, read patterns and short-read schedules (unbounded):
+ (a) `*_hint_bound`: for every resting state and EVERY continuation q that completes the message,
+     1 <= hint and hint + |unused afterwards| <= |q| (encoder independent);
+ (b) `*_no_overread`: while a well-formed message arrives in arbitrary reads the hint is between 1 and the
+     number of message bytes not yet delivered and the exit test is false;
+ (c) `*_done/zero_exactly_at_end`: the exit test holds once the message is complete;
+ (d) `*_loop_consumes_exactly`: the reading loop never blocks, terminates, has consumed exactly the message;
+ (e) `*_truncated_eof`: if the peer closes the pipe inside a message the loop reads what was sent, gets
+     EOF, and never reports completion;
+for the body decoders (lp, ck), ProtocolThreeDecoder as the server uses it (v3s: gives up —
+hint 0 — on a header / structure fastbencode rejects) and as the client uses it (v3c: additionally the
+response handler raising ends the loop), the protocol 1/2 server decoder (req), and for WHOLE messages:
+`serve_*` = `_get_line` + `_get_protocol_factory_for_bytes` + first accept_bytes + loop, from the first
+byte of a request of any version (`WellFormedRequest`), also with the 64 KiB cap (every cap >= 1);
+`client1_* / client2_*` = the response lines read by `read_line` followed by the body reader.
+`v3s_undecodable_stops_early` / `v3c_rejected_stops_early` show the stated conditions are necessary:
+the model, like the code, stops inside such a message and leaves the rest on the pipe.
 
-T2: the REAL loops are run over an in-memory pipe that returns
-`max(1, min(SCHED[i], n))` bytes for `read(n)`:
-  lp   SmartClientRequestProtocolOne.read_body_bytes
-  ck   SmartClientRequestProtocolTwo.read_streamed_body
-  v3c  ConventionalResponseHandler._wait_for_response_end -> _read_more
-  v3s  SmartServerPipeStreamMedium._build_protocol + _serve_one_request_unguarded (v3)
-  req  the same medium with protocol 1 and protocol 2 requests
-and the sequence of requested sizes and the outcome are compared with the model's
-`pipeLoop` under the same schedule.  Raw decoders are additionally traced read by
-read against the model (state, next_read_size, ...), including malformed input.
+T2: the REAL loops are run over an in-memory pipe that returns `max(1, min(SCHED[i], n))` bytes for
+`read(n)` and b"" after the peer closed, and the sequence of requested sizes plus the outcome (finished
+with which bytes left unread / EOF) is compared with the model's `pipeLoop` / `pipeLoopEof` under the same
+schedule and cap (driver op `pipex`): server medium from the first byte of each request (`serve`), client
+`lp`, `ck`, `v3c`, `c1n c1b c2n c2b c2s`.  Raw decoders are additionally traced read by read against the
+model (state, next_read_size, ...), including malformed input.  The bencode acceptance model (`benc`) is
+compared with fastbencode.bdecode_as_tuple on all short token strings and on mutated generated values.
 
-Oracle (no model): every `read(n)` issued by the real code must have `n <=` bytes
-left in the current message (otherwise a pipe read blocks forever), the loop must
-stop exactly at the end of the message (a sentinel after it must not be touched),
-and along raw decoder traces `1 <= next_read_size() <= remaining` until the end.
+Oracle (no model): every `read(n)` issued by the real code has `n <=` bytes left in the current message
+(otherwise a pipe read blocks forever) — also in truncated and back-to-back runs; for in-scope messages the
+loop stops exactly at the end of the message (a sentinel / the next request behind it is not touched,
+nothing is pushed back), reports completion, and the verb saw exactly the request sent; after a hang-up the
+server medium is `finished` / the client raises ConnectionResetError exactly at the cut; along raw decoder
+traces `1 <= next_read_size() <= remaining` until the end.
 
 Mutants this check was built against (each caught with a concrete input; H stayed clean):
   M1 LengthPrefixed.next_read_size: `bytes_left + 5` -> `+ 6`
@@ -43,7 +53,21 @@ Mutants this check was built against (each caught with a concrete input; H staye
   M10 ProtocolThreeDecoder `_NeedMoreBytes(end_of_bytes)` -> `end_of_bytes + 1`: never blocks
      (an `e` always follows) — caught by T2 only (tie broken, no failing input exists)
   H  next_read_size branches reordered / `5 - len(trailer)` written as `len(b"done\\n") - ...`.
+Improvement round (whole messages, EOF, guards, cap) — each caught by the oracle with a concrete input:
+  N1 medium._get_line: `read_bytes_func(1)` -> `(2)` (first caught on a v1 request whose line has odd length)
+  N3 ProtocolThreeDecoder.next_read_size ignores `decoding_failed` (needs an undecodable structure)
+  N4 pipe medium: the `bytes == b""` (EOF) branch removed -> spins on a closed pipe (needs a truncated request)
+  N5 client read_body_bytes: EOF check removed -> spins (needs a truncated response)
+  N6 _build_protocol: `protocol.accept_bytes(unused_bytes)` dropped (protocol 1 loses its argument line)
+  N13 client v2 read_response_tuple reads one more line after a `failed` status
+  N14 SmartMedium.read_bytes: `min(desired_count, _MAX_READ_SIZE)` -> `max(desired_count, 2)`
+  N15 _read_more asks for one byte more once a stream-error status (`oE`) has been seen (needs a real
+      responder message with a failed body stream)
+  N18 ProtocolThreeDecoder.accept_bytes: the restart `self.accept_bytes(b"")` after a message-handler error
+      dropped (needs a part sequence the request handler rejects)
+  H1 `_get_line` loop condition rewritten as `while b"\\n" not in bytes` — clean.
 """
+import hashlib
 import io
 
 from vlib import env
@@ -52,44 +76,80 @@ from vlib.lean import hexb, unhex
 from checks import c29
 
 THEOREMS = [
-    "lp_hint_bound", "lp_no_overread", "lp_done_exactly_at_end", "lp_loop_consumes_exactly",
-    "ck_hint_bound", "ck_no_overread", "ck_done_exactly_at_end", "ck_loop_consumes_exactly",
-    "v3_hint_bound", "v3s_no_overread", "v3s_zero_exactly_at_end", "v3s_loop_consumes_exactly",
-    "v3c_no_overread", "v3c_zero_exactly_at_end", "v3c_loop_consumes_exactly",
+    "lp_hint_bound", "lp_no_overread", "lp_done_exactly_at_end", "lp_loop_consumes_exactly", "lp_truncated_eof",
+    "ck_hint_bound", "ck_no_overread", "ck_done_exactly_at_end", "ck_loop_consumes_exactly", "ck_truncated_eof",
+    "v3_hint_bound",
+    "v3s_hint_bound", "v3s_complete", "v3s_no_overread", "v3s_zero_exactly_at_end", "v3s_loop_consumes_exactly",
+    "v3s_undecodable_stops_early",
+    "v3c_complete", "v3c_no_overread", "v3c_zero_exactly_at_end", "v3c_loop_consumes_exactly", "v3c_truncated_eof",
+    "v3c_rejected_stops_early",
     "req_hint_bound", "req_no_overread", "req_zero_exactly_at_end", "req_loop_consumes_exactly",
+    "serve_no_overread", "serve_done_exactly_at_end", "serve_loop_consumes_exactly",
+    "serve_capped_loop_consumes_exactly", "serve_truncated_eof",
+    "client1_no_overread", "client1_loop_consumes_exactly", "client2_no_overread", "client2_loop_consumes_exactly",
+    "client_truncated_eof",
 ]
-RULE = ("well-formed messages of every protocol version (bodies 0-5000 bytes over the delimiter alphabet, 0-4 "
-        "chunks with optional failure, v3 requests/responses with 0-3 body parts) read by the real loops over a "
-        "pipe with a short-read schedule (1-byte, full, random patterns), plus read-by-read traces of the raw "
-        "decoders; a case is distinct by (kind, message, schedule / segmentation); non-trivial = the message "
-        "needs more than one read")
+RULE = ("whole messages of every protocol version read by the REAL loops over a pipe with a short-read schedule "
+        "(1-byte, full, random patterns): requests through SmartServerPipeStreamMedium from their first byte "
+        "(_get_line + dispatch + decoder) written by the real client encoders (call / body / readv / stream / "
+        "aborted stream; v1, v2, v3), assembled by hand (delimiter-heavy bodies 0-5000 bytes, 0-3 body parts, part "
+        "sequences the request handler rejects), with undecodable headers / structures, 2-3 requests of mixed versions "
+        "back to back on one pipe, bodies above the 64 KiB read cap, and truncated at a random point followed by EOF; "
+        "responses read by the real client (v1 / v2 response lines + bulk / chunked body, v3 via "
+        "ConventionalResponseHandler; written by the real server encoders, by hand, and ones the handler rejects; "
+        "truncated + EOF); read-by-read traces of the raw decoders; the bencode acceptance model on all strings of "
+        "<= 4 tokens (<= 5 thorough) and on mutated generated values; a case is distinct by (kind, message(s), schedule / "
+        "segmentation, truncation point); non-trivial = more than one read")
 ASSUMPTIONS = list(c29.ASSUMPTIONS) + [
-    "a pipe read(n) returns between 1 and n bytes while the peer still has bytes to send and blocks otherwise; "
-    "reads are capped at 64 KiB by the medium (bodies in loop cases stay below that)",
+    "a pipe read(n) returns between 1 and n bytes while the peer still has bytes to send, blocks while it has none "
+    "but keeps the pipe open, and returns b'' once it has closed it",
+    "reads are capped at 64 KiB by the medium (modelled: capMachine, proved for every cap >= 1)",
+    "bencode nesting stays far below Python's recursion limit",
 ]
 TRUSTED = [
     "the OS pipe / ssh channel is an in-memory object with the short-read semantics above",
     "request dispatch is replaced by two test verbs registered in request.request_handlers",
+    "fastbencode.bdecode_as_tuple (external) is specified by Model/C30.lean bencKind and compared on every run; the "
+    "theorems are parametric in the acceptance predicates",
+    "reads issued after the first EOF on a closed pipe are not compared (they return at once)",
 ]
 
 SENTINEL = b"\xfe\xfdSENTINEL-NEXT-MESSAGE"
+CAP = 65536          # medium._MAX_READ_SIZE
+VERB_B = b"C29.b"    # test verb whose requests carry a body (serveMachine's `w`)
+
+
+class SpinError(Exception):
+    pass
 
 
 class SchedPipe:
-    """read(n) -> max(1, min(sched[i], n)) bytes; records (n, bytes left in the message)"""
+    """read(n) -> max(1, min(sched[i], n)) bytes of `data`, b"" once `data` is exhausted (the peer
+    closed).  Records (n, bytes left in the current message) for every read issued before the
+    first EOF; reads after an EOF return at once and are not part of the comparison."""
 
     def __init__(self, data, msg_len, sched):
         self.data = data
-        self.msg_len = msg_len
+        self.msg_len = msg_len        # end of the current message (absolute position)
         self.sched = sched or [0]
         self.pos = 0
         self.i = 0
         self.requests = []
+        self.eof = False
+        self.after_eof = 0
 
     def read(self, n):
+        if self.eof:
+            self.after_eof += 1
+            if self.after_eof > 64:
+                raise SpinError("the loop keeps reading from a pipe the peer has closed (%d reads after EOF)" % self.after_eof)
+            return b""
         self.requests.append((n, max(0, self.msg_len - self.pos)))
         if n is None or n <= 0:
             # read(-1)/read(0) on a pipe: until EOF / nothing — would block or spin
+            return b""
+        if self.pos >= len(self.data):
+            self.eof = True
             return b""
         k = max(1, min(self.sched[self.i % len(self.sched)], n))
         self.i += 1
@@ -112,9 +172,9 @@ def gsched(rng):
     return [rng.choice([1, 1, 2, 3, 4, 7, 16, 1 << 20]) for _ in range(rng.randint(2, 9))]
 
 
-def oracle_reads(ctx, case, pipe, msg_len, what):
-    """the property itself, on the reads the real code issued"""
-    for idx, (n, left) in enumerate(pipe.requests):
+def oracle_reads(ctx, case, reqs, what):
+    """the property itself, on the reads the real code issued: never more than remains of the message"""
+    for idx, (n, left) in enumerate(reqs):
         if n is None or n <= 0:
             ctx.violation(case, "%s: read(%r) requested with %d bytes of the message left" % (what, n, left))
             return False
@@ -122,8 +182,12 @@ def oracle_reads(ctx, case, pipe, msg_len, what):
             ctx.violation(case, "%s: read #%d asks for %d bytes but only %d remain in the current message — "
                           "a pipe read would block" % (what, idx, n, left))
             return False
-    if pipe.pos != msg_len:
-        ctx.violation(case, "%s: loop ended after consuming %d bytes of a %d byte message" % (what, pipe.pos, msg_len))
+    return True
+
+
+def oracle_end(ctx, case, pipe, end, what):
+    if pipe.pos != end:
+        ctx.violation(case, "%s: loop ended at byte %d, the message ends at byte %d" % (what, pipe.pos, end))
         return False
     return True
 
@@ -132,63 +196,93 @@ def hints_str(reqs):
     return ",".join(str(n) for n, _ in reqs) or "-"
 
 
+def sstr(sched):
+    return ",".join(map(str, sched))
+
+
 def gbody(ctx, rng):
     b = c29.gbody(ctx, rng)
     return b[:5000]
 
 
-# ---------------------------------------------------------------- real loops
+def mhex(msg):
+    """messages go into the case record in full unless they are huge"""
+    return hexb(msg) if len(msg) <= 20000 else "len=%d,sha1=%s" % (len(msg), hashlib.sha1(msg).hexdigest())
 
-def loop_lp(ctx, b, rng, body, sched):
-    p = c29._proto()
-    msg = b"%d\n" % len(body) + body + b"done\n"
-    pipe = SchedPipe(msg + SENTINEL, len(msg), sched)
+
+def cut_point(rng, n):
+    """where the peer hangs up: strictly inside an n byte message"""
+    return rng.choice([0, 1, n - 1, rng.randrange(n), rng.randrange(n)]) % n
+
+
+# ---------------------------------------------------------------- the server's pipe medium, whole requests
+
+def server_medium(pipe):
     from breezy.bzr.smart import medium
-    m = medium.SmartSimplePipesClientMedium(pipe, io.BytesIO(), "verif:///")
-    req = m.get_request()
-    req.finished_writing()
-    c = p.SmartClientRequestProtocolOne(req)
-    case = dict(kind="loop-lp", body=hexb(body), sched=sched)
-    try:
-        got = c.read_body_bytes()
-    except Exception as e:
-        ctx.violation(case, "read_body_bytes raised %s: %s" % (type(e).__name__, e))
-        got = None
-    ok = oracle_reads(ctx, case, pipe, len(msg), "client read_body_bytes")
-    if ok and got != body:
-        ctx.violation(case, "read_body_bytes returned %r for body %r" % (got[:40], body[:40]))
-    ctx.case(case, len(pipe.requests) > 1)
-    ctx.count("loop:lp")
-    ctx.count("reads:%d" % min(len(pipe.requests), 12))
-    out = hints_str(pipe.requests) + " finished/-/T"
-    b.add(case, "pipe lp - ~ %s %s 0" % (hexb(msg), ",".join(map(str, sched))), out)
+    return medium.SmartServerPipeStreamMedium(pipe, io.BytesIO(), c29.backing(), timeout=4.0)
 
 
-def loop_ck(ctx, b, rng, chunks, fail, sched):
-    p = c29._proto()
-    msg = c29.real_stream_bytes(chunks, fail)
-    pipe = SchedPipe(msg + SENTINEL, len(msg), sched)
-    from breezy.bzr.smart import medium
-    m = medium.SmartSimplePipesClientMedium(pipe, io.BytesIO(), "verif:///")
-    req = m.get_request()
-    req.finished_writing()
-    c = p.SmartClientRequestProtocolTwo(req)
-    case = dict(kind="loop-ck", chunks=[hexb(x) for x in chunks], fail=None if fail is None else [hexb(x) for x in fail], sched=sched)
-    got = None
-    try:
-        got = list(c.read_streamed_body())
-    except Exception as e:
-        ctx.violation(case, "read_streamed_body raised %s: %s" % (type(e).__name__, e))
-    ok = oracle_reads(ctx, case, pipe, len(msg), "client read_streamed_body")
-    if ok and got is not None:
-        exp = [("d", x) for x in chunks] + ([("f", tuple(fail))] if fail is not None else [])
-        g = [("d", x) if isinstance(x, bytes) else ("f", tuple(x.args)) for x in got]
-        if g != exp:
-            ctx.violation(case, "read_streamed_body yielded %r, sent %r" % (g[:5], exp[:5]))
+def proto_done(proto):
+    if hasattr(proto, "decoding_failed"):
+        return c29.state_name(proto) == "reading_unused" and not proto.decoding_failed
+    return bool(proto._finished)
+
+
+def run_server(ctx, b, desc, msgs, sched, wellformed=True, trunc=None, expect=None):
+    """`msgs` back to back on one pipe through the real SmartServerPipeStreamMedium
+    (_build_protocol + _serve_one_request_unguarded per message).  `wellformed`: the property's
+    scope (every read inside the message AND the loop ends exactly at its end); otherwise only
+    the model comparison and the read bound apply.  `trunc`: the client hangs up after that many
+    bytes of the (single) message.  `expect`: list of (args, body) the verbs must have seen."""
+    total = b"".join(msgs)
+    data = total[:trunc] if trunc is not None else total + SENTINEL
+    pipe = SchedPipe(data, 0, sched)
+    m = server_medium(pipe)
+    case = dict(desc, kind="serve", msgs=[mhex(x) for x in msgs], sched=sched, wellformed=wellformed, trunc=trunc)
+    del c29.LOG[:]
+    end = 0
+    ok = True
+    for r, msg in enumerate(msgs):
+        start, end = end, end + len(msg)
+        pipe.msg_len = end
+        off, nreq = pipe.i, len(pipe.requests)
+        what = "SmartServerPipeStreamMedium (%s, message %d)" % (desc.get("shape", "?"), r)
+        fin = False
+        try:
+            proto = m._build_protocol()
+            m._serve_one_request_unguarded(proto)
+            fin = proto_done(proto)
+        except Exception as e:
+            ctx.violation(case, "pipe medium raised %s: %s" % (type(e).__name__, str(e)[:200]))
+            ok = False
+        reqs = pipe.requests[nreq:]
+        ok = oracle_reads(ctx, case, reqs, what) and ok
+        if trunc is not None:
+            if ok and not (m.finished and pipe.eof and pipe.pos == trunc):
+                ctx.violation(case, "%s: client hung up after %d of %d bytes but the medium did not stop there "
+                              "(finished=%r, consumed %d)" % (what, trunc, len(msg), m.finished, pipe.pos))
+            out = "eof/F" if pipe.eof else "finished/%s/%s" % (hexb(data[pipe.pos:]), "T" if fin else "F")
+            line = "pipex eof serve %s ~ %s %s %d %d" % (VERB_B.hex(), hexb(data), sstr(sched), off, CAP)
+        else:
+            if wellformed and ok:
+                ok = oracle_end(ctx, case, pipe, end, what)
+                if ok and m._push_back_buffer is not None:
+                    ctx.violation(case, "%s: %d bytes pushed back after a complete request" % (what, len(m._push_back_buffer)))
+                if ok and not fin:
+                    ctx.violation(case, "%s: all bytes of the request consumed but the protocol does not report completion" % what)
+            out = "finished/%s/%s" % (hexb(total[pipe.pos:end]) if pipe.pos <= end else "OVER", "T" if fin else "F")
+            line = "pipex blk serve %s ~ %s %s %d %d" % (VERB_B.hex(), hexb(msg), sstr(sched), off, CAP)
+        b.add(case, line, hints_str(reqs) + " " + out)
+        if pipe.pos != end:
+            break       # desynchronised (reported above when in scope): later messages mean nothing
+    if ok and wellformed and trunc is None and expect is not None:
+        ev = [(list(e[1]), e[2] if e[0] == "body" else None) for e in c29.LOG if e[0] in ("body", "nobody")]
+        if ev != [(list(a), bd) for a, bd in expect]:
+            ctx.violation(case, "pipe medium served %r for the requests %r" % (ev, expect))
     ctx.case(case, len(pipe.requests) > 1)
-    ctx.count("loop:ck")
+    ctx.count("serve:%s%s" % (desc.get("shape", "?"), ":eof" if trunc is not None else "" if wellformed else ":illformed"))
     ctx.count("reads:%d" % min(len(pipe.requests), 12))
-    b.add(case, "pipe ck - ~ %s %s 0" % (hexb(msg), ",".join(map(str, sched))), hints_str(pipe.requests) + " finished/-/T")
+    ctx.count("messages-on-pipe:%d" % len(msgs))
 
 
 def v3_wire(hdr, parts):
@@ -198,95 +292,303 @@ def v3_wire(hdr, parts):
     return data + b"e"
 
 
-def loop_v3c(ctx, b, rng, hdr, parts, sched):
-    from breezy.bzr.smart import medium, message
+BAD_BENC = [b"", b"x", b"l", b"le e", b"lee", b"d1:ae", b"i-0e", b"i03e", b"01:a", b"2:a", b"l1:a", b"d1:b0:1:a0:e",
+            b"di1e0:e", b"ie", b"d1:a0:1:a0:e", b"1:ab", b"l5:hello"]
+NOT_DICT = [b"le", b"i1e", b"3:abc", b"l1:ae"]
+NOT_SEQ = [b"de", b"i1e", b"3:abc", b"d1:a0:e"]
+
+
+def gen_request(ctx, rng, big=False):
+    """one request message -> (desc, wire bytes, wellformed, (args, body) the verb must see or None)"""
+    from fastbencode import bencode
     p = c29._proto()
-    msg = p.MESSAGE_VERSION_THREE + v3_wire(hdr, parts)
-    pipe = SchedPipe(msg + SENTINEL, len(msg), sched)
+    r = rng.random()
+    if r < 0.45:
+        # written by the real client encoders
+        version = rng.choice([1, 2, 3])
+        how = rng.choice(["call", "body", "body"] + (["stream", "stream-fail", "readv"] if version == 3 else ["readv"]))
+        verb = b"C29.n" if how == "call" else VERB_B
+        args = [verb] + c29.gargs(rng, version != 3)
+        if how == "call":
+            body, exp = None, (args[1:], None)
+        elif how == "body":
+            body = bytes(rng.getrandbits(8) for _ in range(rng.choice([65531, 65536, 70000]))) if big else gbody(ctx, rng)
+            exp = (args[1:], body)
+        elif how == "readv":
+            body = [(rng.choice([0, 1, 9, 4096, 10 ** 9]), rng.choice([0, 1, 7, 65536])) for _ in range(rng.randint(0, 4))]
+            exp = (args[1:], b"\n".join(b"%d,%d" % t for t in body))
+        else:
+            body = [c29.gbytes(rng, 0, 9) if rng.random() < 0.8 else gbody(ctx, rng) for _ in range(rng.randint(0, 3))]
+            exp = None          # streamed bodies: what the verb sees is C29's subject (F16)
+        wire = c29.enc_request(version, how, args, body, headers={b"k": c29.gbytes(rng, 0, 4)} if version == 3 else None, rng=rng)
+        return dict(shape="real-v%d-%s" % (version, how)), wire, True, exp
+    if r < 0.62:
+        # protocol 1 / 2 assembled by hand (delimiter-heavy bodies)
+        version = rng.choice([1, 2])
+        w = rng.random() < 0.6
+        args = [VERB_B if w else b"C29.n"] + c29.gargs(rng, True)
+        body = gbody(ctx, rng) if w else None
+        wire = (p.REQUEST_VERSION_TWO if version == 2 else b"") + b"\x01".join(args) + b"\n" + \
+            ((b"%d\n" % len(body) + body + b"done\n") if w else b"")
+        return dict(shape="hand-v%d" % version), wire, True, (args[1:], body)
+    hdr = bencode({b"k": c29.gbytes(rng, 0, 4)}) if rng.random() < 0.7 else bencode({})
+    if r < 0.80:
+        # v3 conventional request assembled by hand
+        w = rng.random() < 0.6
+        args = [VERB_B if w else b"C29.n"] + c29.gargs(rng, False)
+        bodies = [gbody(ctx, rng) for _ in range(rng.choice([0, 1, 1, 2, 3]))] if w else []
+        parts = [("s", bencode(args))] + [("b", x) for x in bodies]
+        if w and rng.random() < 0.3:
+            parts += [("o", ord("E")), ("s", bencode([b"err", c29.gbytes(rng, 0, 5)]))] if rng.random() < 0.5 else [("o", ord("S"))]
+        return dict(shape="hand-v3"), p.MESSAGE_VERSION_THREE + v3_wire(hdr, parts), True, None
+    if r < 0.90:
+        # framing-valid part sequences the request handler objects to: the decoder reports the error and
+        # keeps parsing to the end of the message (still inside the property's scope)
+        parts = []
+        for _ in range(rng.randint(0, 5)):
+            k = rng.choice("obs")
+            parts.append((k, rng.choice(b"SEX\x00e") if k == "o" else
+                          rng.choice([c29.gen_struct(rng), bencode({b"a": 1}), b"i7e", b"0:"]) if k == "s" else gbody(ctx, rng)))
+        return dict(shape="odd-parts-v3"), p.MESSAGE_VERSION_THREE + v3_wire(hdr, parts), True, None
+    # headers / structures fastbencode rejects: the decoder gives up inside the message (not well formed)
+    parts = [("s", bencode([b"C29.n"]))] + [("b", c29.gbytes(rng, 0, 9)) for _ in range(rng.randint(0, 2))]
+    if rng.random() < 0.35:
+        hdr = rng.choice(BAD_BENC + NOT_DICT)
+    else:
+        parts.insert(rng.randint(0, len(parts)), ("s", rng.choice(BAD_BENC)))
+    return dict(shape="undecodable-v3"), p.MESSAGE_VERSION_THREE + v3_wire(hdr, parts), False, None
+
+
+def serve_cases(ctx, b, rng):
+    desc, wire, wf, exp = gen_request(ctx, rng)
+    r = rng.random()
+    if wf and r < 0.2:
+        run_server(ctx, b, desc, [wire], gsched(rng), True, trunc=cut_point(rng, len(wire)))
+    elif wf and r < 0.4:
+        msgs, exps, shapes = [wire], [exp], [desc["shape"]]
+        for _ in range(rng.choice([1, 1, 2])):
+            d2, w2, wf2, e2 = gen_request(ctx, rng)
+            if not wf2:
+                continue
+            msgs.append(w2)
+            exps.append(e2)
+            shapes.append(d2["shape"])
+        run_server(ctx, b, dict(shape="+".join(shapes)), msgs, gsched(rng), True,
+                   expect=None if any(e is None for e in exps) else exps)
+    else:
+        run_server(ctx, b, desc, [wire], gsched(rng), wf, expect=None if exp is None else [exp])
+
+
+# ---------------------------------------------------------------- client loops
+
+def client_request(pipe):
+    from breezy.bzr.smart import medium
     m = medium.SmartSimplePipesClientMedium(pipe, io.BytesIO(), "verif:///")
     req = m.get_request()
     req.finished_writing()
-    h = message.ConventionalResponseHandler()
-    d = p.ProtocolThreeDecoder(h, expect_version_marker=True)
-    h.setProtoAndMediumRequest(d, req)
-    case = dict(kind="loop-v3c", hdr=hexb(hdr), parts=[[k, v if k == "o" else hexb(v)] for k, v in parts], sched=sched)
+    return req
+
+
+def run_client(ctx, b, desc, mkind, w, msg, sched, reader, wellformed=True, trunc=None):
+    """the real client reading loop `reader(request)` (returns a value or raises) over `msg`"""
+    data = msg[:trunc] if trunc is not None else msg + SENTINEL
+    pipe = SchedPipe(data, len(msg), sched)
+    case = dict(desc, kind="client", machine=mkind, w=w, msg=mhex(msg), sched=sched, wellformed=wellformed, trunc=trunc)
+    what = "client %s" % desc.get("shape", mkind)
+    got, exc = None, None
     try:
-        h._wait_for_response_end()
+        got = reader(client_request(pipe))
     except Exception as e:
-        ctx.violation(case, "_wait_for_response_end raised %s: %s" % (type(e).__name__, str(e)[:200]))
-    oracle_reads(ctx, case, pipe, len(msg), "client _read_more (v3)")
+        exc = e
+    ok = oracle_reads(ctx, case, pipe.requests, what)
+    if trunc is not None:
+        if ok and not (isinstance(exc, ConnectionResetError) and pipe.eof and pipe.pos == trunc):
+            ctx.violation(case, "%s: server died after %d of %d bytes: expected ConnectionResetError at that point, got %r "
+                          "after %d bytes" % (what, trunc, len(msg), exc if exc is not None else got, pipe.pos))
+        out = "eof/F" if pipe.eof else "finished/%s/%s" % (hexb(data[pipe.pos:]), "T" if exc is None else "F")
+        mode = "eof"
+    else:
+        if wellformed:
+            if exc is not None:
+                ctx.violation(case, "%s raised %s: %s" % (what, type(exc).__name__, str(exc)[:200]))
+                ok = False
+            ok = ok and oracle_end(ctx, case, pipe, len(msg), what)
+            if ok and "expect" in desc and got != desc["expect"]:
+                ctx.violation(case, "%s returned %r, sent %r" % (what, str(got)[:80], str(desc["expect"])[:80]))
+        out = "finished/%s/%s" % (hexb(msg[pipe.pos:]) if pipe.pos <= len(msg) else "OVER", "T" if exc is None else "F")
+        mode = "blk"
+    case.pop("expect", None)
     ctx.case(case, len(pipe.requests) > 1)
-    ctx.count("loop:v3c")
+    ctx.count("client:%s%s" % (desc.get("shape", mkind), ":eof" if trunc is not None else "" if wellformed else ":illformed"))
     ctx.count("reads:%d" % min(len(pipe.requests), 12))
-    b.add(case, "pipe v3c - ~ %s %s 0" % (hexb(msg), ",".join(map(str, sched))), hints_str(pipe.requests) + " finished/-/T")
+    b.add(case, "pipex %s %s %s ~ %s %s 0 %d" % (mode, mkind, w, hexb(data if trunc is not None else msg), sstr(sched), CAP),
+          hints_str(pipe.requests) + " " + out)
 
 
-def server_medium(pipe):
-    from breezy.bzr.smart import medium
-    return medium.SmartServerPipeStreamMedium(pipe, io.BytesIO(), c29.backing(), timeout=4.0)
+def read_lp(req):
+    return c29._proto().SmartClientRequestProtocolOne(req).read_body_bytes()
 
 
-def loop_v3s(ctx, b, rng, hdr, args, bodies, sched):
-    """a conventional v3 request through the real pipe medium and request handler"""
+def read_ck(req):
+    return [("d", x) if isinstance(x, bytes) else ("f", tuple(x.args))
+            for x in c29._proto().SmartClientRequestProtocolTwo(req).read_streamed_body()]
+
+
+def read_v3(req):
+    from breezy.bzr.smart import message
+    h = message.ConventionalResponseHandler()
+    d = c29._proto().ProtocolThreeDecoder(h, expect_version_marker=True)
+    h.setProtoAndMediumRequest(d, req)
+    h._wait_for_response_end()
+    return None
+
+
+def reader12(version, bk):
+    def rd(req):
+        p = c29._proto()
+        c = (p.SmartClientRequestProtocolOne if version == 1 else p.SmartClientRequestProtocolTwo)(req)
+        c._last_verb = b"C29.n"      # set by call(); only used to recognise "unknown method" replies
+        try:
+            t = c.read_response_tuple(expect_body=bk != "n")
+        except Exception as e:
+            if type(e).__name__ != "ErrorFromSmartServer":
+                raise
+            return ("failed", tuple(e.error_tuple))
+        if bk == "b":
+            return (t, c.read_body_bytes())
+        if bk == "s":
+            return (t, [("d", x) if isinstance(x, bytes) else ("f", tuple(x.args)) for x in c.read_streamed_body()])
+        return (t,)
+    return rd
+
+
+def maybe_trunc(rng, msg, p=0.2):
+    return cut_point(rng, len(msg)) if rng.random() < p else None
+
+
+def client_cases(ctx, b, rng, big=False, sched=None):
     from fastbencode import bencode
     p = c29._proto()
-    parts = [("s", bencode(args))] + [("b", x) for x in bodies]
-    rest = v3_wire(hdr, parts)
-    msg = p.MESSAGE_VERSION_THREE + rest
-    pipe = SchedPipe(msg + SENTINEL, len(msg), sched)
-    m = server_medium(pipe)
-    case = dict(kind="loop-v3s", hdr=hexb(hdr), args=[hexb(a) for a in args], bodies=[hexb(x) for x in bodies], sched=sched)
-    del c29.LOG[:]
-    try:
-        proto = m._build_protocol()
-        nline = len(pipe.requests)
-        m._serve_one_request_unguarded(proto)
-    except Exception as e:
-        ctx.violation(case, "pipe medium raised %s: %s" % (type(e).__name__, str(e)[:200]))
-        nline = len(p.MESSAGE_VERSION_THREE)
-    ok = oracle_reads(ctx, case, pipe, len(msg), "SmartServerPipeStreamMedium (v3 request)")
-    ev = [e for e in c29.LOG if e[0] in ("body", "nobody")]
-    if ok and len(ev) != 1:
-        ctx.violation(case, "pipe medium dispatched %d requests for one message" % len(ev))
-    ctx.case(case, len(pipe.requests) > 1)
-    ctx.count("loop:v3s")
-    ctx.count("reads:%d" % min(len(pipe.requests), 12))
-    b.add(case, "pipe v3s - - %s %s %d" % (hexb(rest), ",".join(map(str, sched)), nline),
-          hints_str(pipe.requests[nline:]) + " finished/-/T")
-
-
-def loop_req(ctx, b, rng, version, w, args, body, sched):
-    p = c29._proto()
-    line = b"\x01".join(args) + b"\n"
-    tail = (b"%d\n" % len(body) + body + b"done\n") if w else b""
-    marker = p.REQUEST_VERSION_TWO if version == 2 else b""
-    msg = marker + line + tail
-    pipe = SchedPipe(msg + SENTINEL, len(msg), sched)
-    m = server_medium(pipe)
-    case = dict(kind="loop-req", version=version, w=w, args=[hexb(a) for a in args], body=None if body is None else hexb(body), sched=sched)
-    del c29.LOG[:]
-    nline = None
-    try:
-        proto = m._build_protocol()
-        nline = len(pipe.requests)
-        m._serve_one_request_unguarded(proto)
-    except Exception as e:
-        ctx.violation(case, "pipe medium raised %s: %s" % (type(e).__name__, str(e)[:200]))
-    ok = oracle_reads(ctx, case, pipe, len(msg), "SmartServerPipeStreamMedium (v%d request)" % version)
-    ev = [e for e in c29.LOG if e[0] in ("body", "nobody")]
-    if ok and (len(ev) != 1 or list(ev[0][1]) != list(args[1:]) or (ev[0][2] if ev[0][0] == "body" else None) != body):
-        ctx.violation(case, "pipe medium served %r for request args=%r body=%r" % (ev, args, body))
-    ctx.case(case, len(pipe.requests) > 1)
-    ctx.count("loop:req-v%d" % version)
-    ctx.count("reads:%d" % min(len(pipe.requests), 12))
-    if nline is None:
-        nline = len(marker or line)
-    if version == 1:
-        pre, rem = hexb(line), tail
+    fx = c29.handler_variant()
+    gs = (lambda _r: list(sched)) if sched else gsched
+    # bulk body
+    body = bytes(rng.getrandbits(8) for _ in range(rng.choice([65531, 65536, 70000]))) if big else gbody(ctx, rng)
+    msg = b"%d\n" % len(body) + body + b"done\n"
+    run_client(ctx, b, dict(shape="lp", expect=body), "lp", "-", msg, gs(rng), read_lp, trunc=maybe_trunc(rng, msg))
+    # chunked body (real encoder)
+    chunks = [gbody(ctx, rng) if rng.random() < 0.2 else c29.gbytes(rng, 0, 9) for _ in range(rng.randint(0, 4))]
+    if big:
+        chunks.append(bytes(rng.getrandbits(8) for _ in range(70000)))
+    fail = [c29.gbytes(rng, 0, 6) for _ in range(rng.randint(0, 3))] if rng.random() < 0.3 else None
+    msg = c29.real_stream_bytes(chunks, fail)
+    exp = [("d", x) for x in chunks] + ([("f", tuple(fail))] if fail is not None else [])
+    run_client(ctx, b, dict(shape="ck", expect=exp), "ck", "-", msg, gs(rng), read_ck, trunc=maybe_trunc(rng, msg))
+    # v3 response
+    r = rng.random()
+    if r < 0.5:
+        # written by the real responder
+        ok = rng.random() < 0.7
+        ra = [c29.gbytes(rng, 0, 6) for _ in range(rng.randint(1, 3))]
+        shape = rng.choice(["args", "body", "stream", "stream-fail"])
+        rb = rs = rf = None
+        if shape == "body":
+            rb = bytes(rng.getrandbits(8) for _ in range(70000)) if big else gbody(ctx, rng)
+        elif shape != "args":
+            rs = [c29.gbytes(rng, 0, 9) for _ in range(rng.randint(0, 3))]
+            if shape == "stream-fail":
+                rf = [c29.gbytes(rng, 1, 6) for _ in range(rng.randint(1, 2))]
+        wf = not (fx == "F" and c29.classify_resp(3, ok, rb, rs, rf))
+        msg = c29.enc_response(3, ok, ra, rb, rs, rf)
+        run_client(ctx, b, dict(shape="real-v3-" + shape), "v3c", fx, msg, gs(rng), read_v3, wellformed=wf,
+                   trunc=maybe_trunc(rng, msg) if wf else None)
+    elif r < 0.75:
+        hdr = bencode({b"Software version": b"x"}) if rng.random() < 0.5 else bencode({})
+        parts = [("o", rng.choice(b"SE")), ("s", c29.gen_struct(rng))]
+        nb = rng.choice([0, 0, 1, 2, 3])
+        for _ in range(nb):
+            parts.append(("b", gbody(ctx, rng)))
+        if nb and rng.random() < 0.35:
+            parts += [("o", ord("E")), ("s", c29.gen_struct(rng))]
+        msg = p.MESSAGE_VERSION_THREE + v3_wire(hdr, parts)
+        run_client(ctx, b, dict(shape="hand-v3"), "v3c", fx, msg, gs(rng), read_v3, trunc=maybe_trunc(rng, msg))
     else:
-        pre, rem = "-", line + tail
-    b.add(case, "pipe req %s %s %s %s %d" % ("T" if w else "F", pre, hexb(rem), ",".join(map(str, sched)), nline),
-          hints_str(pipe.requests[nline:]) + " finished/-/T")
+        # responses the decoder or the response handler rejects: the loop stops inside the message
+        hdr = rng.choice(BAD_BENC + NOT_DICT) if rng.random() < 0.2 else bencode({})
+        parts = []
+        for _ in range(rng.randint(0, 5)):
+            k = rng.choice("oobss")
+            parts.append((k, rng.choice(b"SSEEX") if k == "o" else
+                          rng.choice([c29.gen_struct(rng)] * 4 + NOT_SEQ + BAD_BENC) if k == "s" else c29.gbytes(rng, 0, 9)))
+        msg = p.MESSAGE_VERSION_THREE + v3_wire(hdr, parts)
+        run_client(ctx, b, dict(shape="rejected-v3"), "v3c", fx, msg, gs(rng), read_v3, wellformed=False)
+    # protocol 1 / 2 responses written by the real server side, read line by line
+    version = rng.choice([1, 2, 2])
+    ok = version == 1 or rng.random() < 0.8
+    bk = rng.choice("nbs" if version == 2 else "nb") if ok else "n"
+    ra = [b"ok"] + c29.gargs(rng, True)
+    rb = gbody(ctx, rng) if bk == "b" else None
+    rs = [c29.gbytes(rng, 0, 9) for _ in range(rng.randint(0, 3))] if bk == "s" else None
+    rf = [c29.gbytes(rng, 0, 6) for _ in range(rng.randint(0, 2))] if bk == "s" and rng.random() < 0.3 else None
+    msg = c29.enc_response(version, ok, ra, rb, rs, rf)
+    if not ok:
+        exp = ("failed", tuple(ra))
+    elif bk == "b":
+        exp = (tuple(ra), rb)
+    elif bk == "s":
+        exp = (tuple(ra), [("d", x) for x in rs] + ([("f", tuple(rf))] if rf is not None else []))
+    else:
+        exp = (tuple(ra),)
+    run_client(ctx, b, dict(shape="v%d-%s-%s" % (version, "ok" if ok else "failed", bk), expect=exp), "c%d%s" % (version, bk), "-",
+               msg, gs(rng), reader12(version, bk), trunc=maybe_trunc(rng, msg))
+
+
+# ---------------------------------------------------------------- the bencode model used for okH / okS / isSeq
+
+BENC_ALPHA = [b"d", b"l", b"e", b"i", b"0", b"1", b"2", b":", b"-", b"a"]
+
+
+def benc_kind(raw):
+    from fastbencode import bdecode_as_tuple
+    try:
+        v = bdecode_as_tuple(raw)
+    except Exception:
+        return "~"
+    return "dict" if isinstance(v, dict) else "list" if isinstance(v, tuple) else "int" if isinstance(v, int) else "str"
+
+
+def gen_benc(rng, depth=0):
+    r = rng.random()
+    if depth > 3 or r < 0.35:
+        s = c29.gbytes(rng, 0, 4, b"a:b\x00e\xff")
+        return b"%d:%s" % (len(s), s)
+    if r < 0.5:
+        return b"i%de" % rng.choice([0, 1, -1, 7, 10, -12, 12345678901234567890])
+    if r < 0.75:
+        return b"l" + b"".join(gen_benc(rng, depth + 1) for _ in range(rng.randint(0, 3))) + b"e"
+    keys = sorted({c29.gbytes(rng, 0, 3, b"ab\xff\x00") for _ in range(rng.randint(0, 3))})
+    return b"d" + b"".join(b"%d:%s" % (len(k), k) + gen_benc(rng, depth + 1) for k in keys) + b"e"
+
+
+def benc_cases(ctx, b, rng, exhaustive_len):
+    def one(raw, nt=True):
+        case = dict(kind="benc", raw=hexb(raw))
+        ctx.case(case, nt)
+        b.add(case, "benc %s" % hexb(raw), benc_kind(raw))
+    import itertools
+    for n in range(exhaustive_len + 1):
+        for t in itertools.product(BENC_ALPHA, repeat=n):
+            one(b"".join(t))
+    for raw in BAD_BENC + NOT_DICT + NOT_SEQ:
+        one(raw)
+    for _ in range(ctx.pick(1500, 10000)):
+        raw = gen_benc(rng)
+        r = rng.random()
+        if r < 0.35 and raw:
+            i = rng.randrange(len(raw))
+            raw = rng.choice([raw[:i] + raw[i + 1:], raw[:i] + rng.choice(BENC_ALPHA) + raw[i:], raw[:i] + rng.choice(BENC_ALPHA) + raw[i + 1:],
+                              raw + rng.choice(BENC_ALPHA), raw[:i]])
+        ctx.count("benc:" + benc_kind(raw))
+        one(raw)
 
 
 # ---------------------------------------------------------------- read-by-read traces of the raw decoders
@@ -408,56 +710,72 @@ def trace_cases(ctx, b, rng):
 
 
 def loop_cases(ctx, b, rng):
-    from fastbencode import bencode
-    loop_lp(ctx, b, rng, gbody(ctx, rng), gsched(rng))
-    chunks = [gbody(ctx, rng) if rng.random() < 0.2 else c29.gbytes(rng, 0, 9) for _ in range(rng.randint(0, 4))]
-    fail = [c29.gbytes(rng, 0, 6) for _ in range(rng.randint(0, 3))] if rng.random() < 0.3 else None
-    loop_ck(ctx, b, rng, chunks, fail, gsched(rng))
-    # v3 response as the real responder would write it (shapes the response handler accepts)
-    hdr = bencode({b"Software version": b"x"}) if rng.random() < 0.5 else bencode({})
-    parts = [("o", rng.choice(b"SE")), ("s", c29.gen_struct(rng))]
-    nb = rng.choice([0, 0, 1, 2, 3])
-    for _ in range(nb):
-        parts.append(("b", gbody(ctx, rng)))
-    if nb and rng.random() < 0.35:
-        parts += [("o", ord("E")), ("s", c29.gen_struct(rng))]
-    loop_v3c(ctx, b, rng, hdr, parts, gsched(rng))
-    w = rng.random() < 0.6
-    args = [b"C29.b" if w else b"C29.n"] + c29.gargs(rng, False)
-    bodies = [gbody(ctx, rng) for _ in range(rng.choice([0, 1, 1, 2, 3]))] if w else []
-    loop_v3s(ctx, b, rng, bencode({b"k": c29.gbytes(rng, 0, 4)}), args, bodies, gsched(rng))
-    w = rng.random() < 0.6
-    args = [b"C29.b" if w else b"C29.n"] + c29.gargs(rng, True)
-    loop_req(ctx, b, rng, rng.choice([1, 2]), w, args, gbody(ctx, rng) if w else None, gsched(rng))
+    serve_cases(ctx, b, rng)
+    client_cases(ctx, b, rng)
 
 
 def corpus_cases(ctx, b):
+    """fixed small messages under the basic schedules (every run), then the > 64 KiB family"""
     rng = ctx.rng
     from fastbencode import bencode
+    p = c29._proto()
+    fx = c29.handler_variant()
+    m3 = p.MESSAGE_VERSION_THREE
     for sched in ([1], [1 << 20], [2], [1, 1 << 20], [3, 1]):
         for body in (b"", b"a", b"done\n", b"0123456789"):
-            loop_lp(ctx, b, rng, body, sched)
-            loop_req(ctx, b, rng, 1, True, [b"C29.b"], body, sched)
-            loop_req(ctx, b, rng, 2, True, [b"C29.b", b"x"], body, sched)
-        loop_req(ctx, b, rng, 1, False, [b"C29.n"], None, sched)
-        loop_req(ctx, b, rng, 2, False, [b"C29.n", b"ab"], None, sched)
-        loop_req(ctx, b, rng, 1, False, [b"C29.n", b"a"], None, sched)
+            lp = b"%d\n" % len(body) + body + b"done\n"
+            run_client(ctx, b, dict(shape="lp", expect=body), "lp", "-", lp, sched, read_lp)
+            run_server(ctx, b, dict(shape="hand-v1"), [b"C29.b\n" + lp], sched, expect=[([], body)])
+            run_server(ctx, b, dict(shape="hand-v2"), [p.REQUEST_VERSION_TWO + b"C29.b\x01x\n" + lp], sched, expect=[([b"x"], body)])
+            run_client(ctx, b, dict(shape="v1-ok-b", expect=((b"ok",), body)), "c1b", "-", b"ok\n" + lp, sched, reader12(1, "b"))
+            run_client(ctx, b, dict(shape="v2-ok-b", expect=((b"ok", b"1"), body)), "c2b", "-",
+                       p.RESPONSE_VERSION_TWO + b"success\nok\x011\n" + lp, sched, reader12(2, "b"))
+        run_server(ctx, b, dict(shape="hand-v1"), [b"C29.n\n"], sched, expect=[([], None)])
+        run_server(ctx, b, dict(shape="hand-v2"), [p.REQUEST_VERSION_TWO + b"C29.n\x01ab\n"], sched, expect=[([b"ab"], None)])
+        run_server(ctx, b, dict(shape="hand-v1"), [b"C29.n\x01a\n"], sched, expect=[([b"a"], None)])
+        run_client(ctx, b, dict(shape="v1-ok-n", expect=((b"ok",),)), "c1n", "-", b"ok\n", sched, reader12(1, "n"))
+        run_client(ctx, b, dict(shape="v2-failed-n", expect=("failed", (b"no",))), "c2n", "-",
+                   p.RESPONSE_VERSION_TWO + b"failed\nno\n", sched, reader12(2, "n"))
         for chunks, fail in (([], None), ([b""], None), ([b"ab", b""], [b"x"]), ([b"a" * 17], [])):
-            loop_ck(ctx, b, rng, chunks, fail, sched)
-        loop_v3c(ctx, b, rng, bencode({}), [], sched)
-        loop_v3c(ctx, b, rng, bencode({}), [("o", 83), ("s", bencode([b"ok"]))], sched)
-        loop_v3c(ctx, b, rng, bencode({}), [("o", 83), ("s", bencode([b"ok"])), ("b", b""), ("b", b"xyz")], sched)
-        loop_v3s(ctx, b, rng, bencode({}), [b"C29.n"], [], sched)
-        loop_v3s(ctx, b, rng, bencode({}), [b"C29.b"], [b""], sched)
-        loop_v3s(ctx, b, rng, bencode({}), [b"C29.b", b"a"], [b"abc", b""], sched)
+            ck = c29.real_stream_bytes(chunks, fail)
+            exp = [("d", x) for x in chunks] + ([("f", tuple(fail))] if fail is not None else [])
+            run_client(ctx, b, dict(shape="ck", expect=exp), "ck", "-", ck, sched, read_ck)
+            run_client(ctx, b, dict(shape="v2-ok-s", expect=((b"ok",), exp)), "c2s", "-",
+                       p.RESPONSE_VERSION_TWO + b"success\nok\n" + ck, sched, reader12(2, "s"))
+        de = bencode({})
+        for parts in ([], [("o", 83), ("s", bencode([b"ok"]))], [("o", 83), ("s", bencode([b"ok"])), ("b", b""), ("b", b"xyz")]):
+            run_client(ctx, b, dict(shape="hand-v3"), "v3c", fx, m3 + v3_wire(de, parts), sched, read_v3)
+        run_server(ctx, b, dict(shape="hand-v3"), [m3 + v3_wire(de, [("s", bencode([b"C29.n"]))])], sched, expect=[([], None)])
+        run_server(ctx, b, dict(shape="hand-v3"), [m3 + v3_wire(de, [("s", bencode([b"C29.b"])), ("b", b"")])], sched, expect=[([], b"")])
+        run_server(ctx, b, dict(shape="hand-v3"), [m3 + v3_wire(de, [("s", bencode([b"C29.b", b"a"])), ("b", b"abc"), ("b", b"")])], sched,
+                   expect=[([b"a"], b"abc")])
+        # the decoder gives up on an undecodable structure: the rest of the message stays on the pipe
+        run_server(ctx, b, dict(shape="undecodable-v3"), [m3 + v3_wire(de, [("s", b"x"), ("b", b"abc")])], sched, wellformed=False)
+        run_server(ctx, b, dict(shape="undecodable-v3"), [m3 + v3_wire(b"le", [("s", bencode([b"C29.n"]))])], sched, wellformed=False)
+        # three requests of three protocol versions back to back on one pipe
+        run_server(ctx, b, dict(shape="hand-v1+hand-v3+hand-v2"),
+                   [b"C29.b\x01q\n3\nabcdone\n", m3 + v3_wire(de, [("s", bencode([b"C29.n", b"z"]))]), p.REQUEST_VERSION_TWO + b"C29.n\n"],
+                   sched, expect=[([b"q"], b"abc"), ([b"z"], None), ([], None)])
+        # every truncation point of a short request of each version
+        for msg in (b"C29.b\n2\nhidone\n", p.REQUEST_VERSION_TWO + b"C29.n\n", m3 + v3_wire(de, [("s", bencode([b"C29.b"])), ("b", b"hi")])):
+            for k in (range(len(msg)) if sched == [1 << 20] else (0, 1, len(msg) // 2, len(msg) - 1)):
+                run_server(ctx, b, dict(shape="short"), [msg], sched, trunc=k)
+    # bodies above the medium's 64 KiB cap (requests are capped, the loops must still end exactly)
+    for sched in ([1 << 20], [1 << 20, 3, 70000]):
+        for _ in range(ctx.pick(1, 3)):
+            desc, wire, wf, exp = gen_request(ctx, rng, big=True)
+            run_server(ctx, b, dict(desc, big=True), [wire], sched, wf, expect=None if exp is None else [exp])
+            client_cases(ctx, b, rng, big=True, sched=sched)
 
 
 def run(ctx, n=None):
     c29.register_verbs()
     rng = ctx.rng
     b = c29.Batch()
+    ctx.extra["response_handler_variant"] = c29.handler_variant()
     corpus_cases(ctx, b)
-    n = n or ctx.pick(1500, 12000)
+    benc_cases(ctx, b, rng, ctx.pick(4, 5))
+    n = n or ctx.pick(2200, 12000)
     for _ in range(n):
         loop_cases(ctx, b, rng)
         trace_cases(ctx, b, rng)
@@ -465,7 +783,7 @@ def run(ctx, n=None):
 
 
 def widen(ctx):
-    run(ctx, n=4000)
+    run(ctx, n=3000)
 
 
 def replay(ctx, case):
@@ -473,18 +791,21 @@ def replay(ctx, case):
     rng = ctx.rng
     b = c29.Batch()
     k = case.get("kind")
-    ub = lambda s: None if s is None else unhex(s)
-    parts = lambda ps: [(kk, v if kk == "o" else unhex(v)) for kk, v in ps]
-    if k == "loop-lp":
-        loop_lp(ctx, b, rng, ub(case["body"]), case["sched"])
-    elif k == "loop-ck":
-        loop_ck(ctx, b, rng, [unhex(x) for x in case["chunks"]], None if case["fail"] is None else [unhex(x) for x in case["fail"]], case["sched"])
-    elif k == "loop-v3c":
-        loop_v3c(ctx, b, rng, ub(case["hdr"]), parts(case["parts"]), case["sched"])
-    elif k == "loop-v3s":
-        loop_v3s(ctx, b, rng, ub(case["hdr"]), [unhex(a) for a in case["args"]], [unhex(x) for x in case["bodies"]], case["sched"])
-    elif k == "loop-req":
-        loop_req(ctx, b, rng, case["version"], case["w"], [unhex(a) for a in case["args"]], ub(case["body"]), case["sched"])
+    big = lambda h: h.startswith("len=")
+    if k == "serve":
+        if any(big(x) for x in case["msgs"]):
+            return dict(case=case, note="message above 20000 bytes is not stored; re-run the check with the same seed")
+        run_server(ctx, b, dict(shape=case.get("shape", "?")), [unhex(x) for x in case["msgs"]], case["sched"],
+                   case["wellformed"], case["trunc"])
+    elif k == "client":
+        if big(case["msg"]):
+            return dict(case=case, note="message above 20000 bytes is not stored; re-run the check with the same seed")
+        mk = case["machine"]
+        reader = {"lp": read_lp, "ck": read_ck, "v3c": read_v3}.get(mk) or reader12(int(mk[1]), mk[2])
+        run_client(ctx, b, dict(shape=case.get("shape", mk)), mk, case["w"], unhex(case["msg"]), case["sched"], reader,
+                   case["wellformed"], case["trunc"])
+    elif k == "benc":
+        b.add(case, "benc %s" % case["raw"], benc_kind(unhex(case["raw"])))
     elif k in ("trace-lp", "trace-ck", "trace-v3", "trace-req"):
         segs = [unhex(s) for s in case["segs"]]
         n = sum(len(s) for s in segs)
